@@ -77,6 +77,18 @@ def r_ddl(ctx: Ctx, model, mach):
                                                    "db_create no longer executes every statement of PRAGMAS"))
 
 
+def r_collation(ctx: Ctx, mach):
+    ctx.rule("D-ddl(collation): key and content columns compare byte-wise (no COLLATE NOCASE / RTRIM): 'CO' and 'Co' are different keys, "
+             "as in the dictionary model")
+    for t in mach.tables.values():
+        for c, info in t.columns.items():
+            col = info.get("collate")
+            ctx.ob(col in (None, "BINARY"), Finding("C08.D-ddl", "src/pygaps/utilities/sqlite_db_pragmas.py", f"collate:{t.name}.{c}:{col}",
+                                                     f"table {t.name}: column {c} is declared COLLATE {col}: keys that differ only in case (or trailing "
+                                                     "blanks) become the same key - deleting an absent 'Co' removes 'CO', uploading it is refused as duplicate"),
+                   nontrivial_key=("collate", t.name, c))
+
+
 def all_store_functions(model):
     m = model.module(SQLITE)
     return [fi for n, fi in m.functions.items() if "with_connection" in fi.decorators]
@@ -172,6 +184,13 @@ def r_paths(ctx: Ctx, model, mach):
                             ctx.ob(False, Finding("C08.D-read", fi.where, f"{fi.name}|pending-rows-discarded:{e[1]}",
                                                   f"{fi.name}({vdesc}): a new statement ({e[2]} {e[3]}) is executed on a cursor that still "
                                                   f"has unfetched rows of {e[1]} (fetchmany): the remaining rows are lost"))
+                    if shape == "keyword" and fi.name in ("material_to_db", "adsorbate_to_db") and "overwrite=True" in vdesc and oc.kind == "ok":
+                        ptab = fi.name.split("_")[0] + "_properties"
+                        okd = any(e[1] == "DELETE" and e[2] == ptab for e in sqls)
+                        ctx.ob(okd, Finding("C08.D-delete", fi.where, f"{fi.name}|overwrite-keeps-old-properties",
+                                            f"{fi.name}({vdesc}) completes without DELETE FROM {ptab}: the properties stored before the "
+                                            "overwrite survive it (the stored item is not the one uploaded)"),
+                               nontrivial_key=("overwrite-delete", fi.name, vdesc))
                     if shape == "keyword":
                         C09.r_absent(ctx, fi, vdesc, oc, trace)
                         seen_del = set()
@@ -250,10 +269,13 @@ def r_bool(ctx: Ctx, model, mach):
     m = re.search(r"val = '(\w+)' if val else '(\w+)'", w)
     if not m:
         raise AnalysisError("anchor missing: bool encoding in isotherm_to_db")
-    for enc, want in ((m.group(1), True), (m.group(2), False), ("other", "other")):
+    others = [x for x in ("true", "True", "false", "False", "tRuE", "other", "1", "0") if x not in (m.group(1), m.group(2))]
+    for enc, want in [(m.group(1), True), (m.group(2), False)] + [(x, x) for x in others]:
         outs = I.explore(lambda I: I.call_func(f, [enc], {}, None))
-        ok = len(outs) == 1 and outs[0].kind == "ok" and outs[0].value == want and (outs[0].value is want or want == "other")
-        ctx.ob(ok, Finding("C08.D-read", f.where, f"bool-decode:{enc}", f"check_SQL_bool({enc!r}) gives {outs[0]!r}, the writer encodes {want!r} as {enc!r}"),
+        ok = len(outs) == 1 and outs[0].kind == "ok" and outs[0].value == want and (outs[0].value is want or isinstance(want, str))
+        ctx.ob(ok, Finding("C08.D-read", f.where, f"bool-decode:{enc}",
+                           f"check_SQL_bool({enc!r}) gives {outs[0]!r}; required {want!r}: only the writer's own encodings "
+                           f"({m.group(1)!r}/{m.group(2)!r}) stand for booleans, any other text property must come back as the text it was"),
                nontrivial_key=("bool", enc))
 
 
@@ -279,6 +301,7 @@ def run(ctx: Ctx):
     mach.cell_values[("isotherm_properties", "value")] = "USERVALUE"
     ctx.assume("SQLite enforces UNIQUE / NOT NULL / FOREIGN KEY (with PRAGMA foreign_keys = ON) as declared")
     r_ddl(ctx, model, mach)
+    r_collation(ctx, mach)
     r_paths(ctx, model, mach)
     r_lists(ctx, model)
     r_bool(ctx, model, mach)
